@@ -741,7 +741,7 @@ class Note:
                 result += f".{duration}"
             else:
                 if isinstance(self.duration, int):
-                    result += f".augment({self.duration}))"
+                    result += f".augment({self.duration})"
                 else:
                     result += f".augment(frac({self.duration.numerator}, {self.duration.denominator}))"
 
